@@ -225,7 +225,9 @@ func C12(c *wk.Ctx) {
 		r := simrt.NewRNG(c.UnitSeed(run, 7))
 		for ci := 0; ci < perUnit; ci++ {
 			seed := c.UnitSeed(run, uint64(100+ci))
-			gc := gen.Generate(seed, c12Opts())
+			o12 := c12Opts()
+			o12.Focus = gen.FocusFor(seed)
+			gc := gen.Generate(seed, o12)
 			cs := &c12Case{Case: gc, Catalogue: -1}
 			if r.Intn(2) == 0 {
 				cs.Catalogue = []int{0, 1, 2, faults.KindPO}[r.Intn(4)]
